@@ -50,4 +50,20 @@ func init() {
 			"a short write returns n < len with nil error, as write(2) does when the disk fills or a file-size limit is hit mid-call",
 		},
 	}
+	plans["C08"] = plan{
+		Level: "exploration",
+		Parts: []part{{"E", "mixed", 40000, 3}, {"E", "single", 15000, 1}, {"E", "sweep", 48, 3}},
+		Rule: "each run = 1-2 client connections, each a newline-terminated stream of single- and multi-line records with interspersed garbage lines, cut into read " +
+			"fragments (segment-preserving simulated TCP: one client write = one agent read) with pauses drawn around the flush interval (0, just below, equal, just above, multiples), " +
+			"under one seeded goroutine schedule; profile sweep additionally runs ALL 1-cut and 2-cut splits of each short base stream. Oracle: emitted messages vs an independent " +
+			"line-based reference framer: heads exactly once and in order, each record = head + prefix of its continuation lines, full equality when the stream arrives within " +
+			"less than the flush interval and for single-line streams under any timing; messages failing the start test may only consist of unused non-start lines. " +
+			"Non-trivial: fragmentation or a pause >= half the flush interval occurred.",
+		Real: []string{"input/tcplistener (listener, runConnection, multiLineReader)", "util.NetConnWrapper", "syslogprotocol.TestRecordStart", "gotils channels"},
+		Stub: []string{"TCP (simnet)", "clients", "recording MultiSinkMessageReceiver"},
+		Assumption: []string{
+			"record and line-buffer limits are scaled down consistently (record limit 512 B, line buffer 4x) and records stay below them",
+			"streams are newline-terminated (the property's quantifier); a partial last line is covered by C01/C07's partial-tail rule",
+		},
+	}
 }
